@@ -96,6 +96,23 @@ func init() {
 				jobs = append(jobs, J("H_C06_divpat", o, "n", 2, "m", 3, "v0", 4, "v1", 2, "alias", a))
 			}
 			jobs = append(jobs, J("H_C06_divpat", o, "n", 3, "m", 4, "v0", 4, "v1", 4, "v2", 2, "alias", 1))
+			// the helpers the long algorithms are built from, each against its arithmetic definition
+			for _, c := range [][3]int{{3, 1, 1}, {3, 2, 0}, {4, 2, 1}, {5, 2, 1}, {5, 1, 2}, {6, 3, 0}, {6, 2, 2}} {
+				jobs = append(jobs, J("H_C06_units", o, "unit", 1, "lz", c[0], "n", c[1], "i", c[2]))
+			}
+			for w, is := range [][]int{nil, {0, 1, 9, 18, 19, 22}, {0, 7, 18, 19, 20, 37, 38, 40}, {19, 38, 45, 56, 57}} {
+				for _, i := range is {
+					jobs = append(jobs, J("H_C06_units", o, "unit", 2, "w", w, "i", i))
+				}
+			}
+			jobs = append(jobs, J("H_C06_units", o, "unit", 4, "w", 1), J("H_C06_units", o, "unit", 4, "w", 2))
+			for _, w := range []int{1, 2} {
+				for _, sh := range []int{0, 1, 18, 19, 20, 38} {
+					for a := 0; a <= 2; a++ {
+						jobs = append(jobs, J("H_C06_units", o, "unit", 3, "w", w, "s", sh, "alias", a), J("H_C06_units", o, "unit", 3, "w", w, "s", sh, "alias", a, "right", 1))
+					}
+				}
+			}
 			// results do not depend on the thresholds: same query under two assignments
 			jobs = append(jobs, J("H_C06_thresh", o, "m", 2, "n", 2))
 			if tier == "thorough" {
@@ -107,7 +124,7 @@ func init() {
 			return jobs
 		},
 		Bounds: map[string]string{
-			"quick":    "dec.mul: schoolbook 1x1..4x4 words, Karatsuba (threshold variable lowered to 2) at 2x2; dec.sqr: 1-3 words via mul10WW/decBasicMul, decBasicSqr (threshold lowered) at 2 words; dec.div: dividend shorter than divisor, single-word divisors with 1-3 word dividends (divW/div10VWW), and 2- and 3-word divisors taken from a list of extremal patterns (top word D/2, D/2+1, D-1, 7e18; lower words D-1, 0, 1, ...) with ARBITRARY dividends of up to one more word than the divisor + 1 (divLarge scaling, divBasic quotient-digit estimation, correction loop, add-back, un-scaling), also with the quotient or remainder receiver aliased to the divisor or the dividend; threshold independence at 2x2. All word values (< 10^19), including whole-word runs of 0s and 9s.",
+			"quick":    "dec.mul: schoolbook 1x1..4x4 words, Karatsuba (threshold variable lowered to 2) at 2x2; dec.sqr: 1-3 words via mul10WW/decBasicMul, decBasicSqr (threshold lowered) at 2 words; dec.div: dividend shorter than divisor, single-word divisors with 1-3 word dividends (divW/div10VWW), and 2- and 3-word divisors taken from a list of extremal patterns (top word D/2, D/2+1, D-1, 7e18; lower words D-1, 0, 1, ...) with ARBITRARY dividends of up to one more word than the divisor + 1 (divLarge scaling, divBasic quotient-digit estimation, correction loop, add-back, un-scaling), also with the quotient or remainder receiver aliased to the divisor or the dividend; threshold independence at 2x2. Helpers: decAddAt (z += x*D^i with carry through one or more upper words, given the sum fits) at 7 shapes, digit/sticky at 19 (words, position) pairs incl. positions at and beyond word boundaries, digits/trailingZeroDigits for 1-2 words, shl/shr of 1-2 words by {0,1,18,19,20,38} digits into fresh, identical and longer stale receivers. All word values (< 10^19), including whole-word runs of 0s and 9s.",
 			"thorough": "dec.mul up to 6x6 schoolbook and 3x3 Karatsuba incl. the unbalanced loop; decBasicSqr at 3 words; divisors of 1 word with 4-word dividends.",
 		},
 		Outside: []string{
